@@ -24,7 +24,9 @@
             the helper's with statement raised: nothing for the helper as it is, rename for one that commits in its exit
    line:  persists <TAB> autosave(0|1) <TAB> flavor,flavor,... <TAB> flavor,product,version;...
    answer:  files:flavor:rows;...  the cache files Model/CrashCache.persists writes during the rebuild at start-up, in order,
-            each with the number of rows it holds *)
+            each with the number of rows it holds; the declarations are given in the order the rebuild adds them: with
+            autosave off the files are those of the flavors of the declarations in the order first met, then of the
+            loaded flavors not among them (Model/CrashCache.saved_flavors) *)
 let dec_lines (s : Stdlib.String.t) = dec_list ',' dec_str s
 let enc_lines l = enc_list ',' enc_str l
 
